@@ -333,13 +333,53 @@ func init() {
 
 	// ---- log: no-ops ----
 	for _, n := range []string{"Print", "Printf", "Println"} {
+		n := n
 		reg("log."+n, func(fr *frame, args []Value) Value { return nil })
-		reg("(*log.Logger)."+n, func(fr *frame, args []Value) Value { return nil })
+		// a *log.Logger whose destination is a harness writer (type name zz…) really receives the
+		// line; every other logger is a no-op
+		reg("(*log.Logger)."+n, func(fr *frame, args []Value) Value {
+			it := fr.it
+			p, ok := args[0].(*Value)
+			if !ok || p == nil {
+				return nil
+			}
+			st, ok := (*p).(Struct)
+			if !ok {
+				return nil
+			}
+			var out Value
+			if pkg := it.prog.ImportedPackage("log"); pkg != nil {
+				if lt, ok := pkg.Type("Logger").Type().Underlying().(*types.Struct); ok {
+					for i := 0; i < lt.NumFields(); i++ {
+						if lt.Field(i).Name() == "out" {
+							out = st[i]
+						}
+					}
+				}
+			}
+			oi, ok := out.(Iface)
+			if !ok || oi.t == nil || !strings.Contains(oi.t.String(), ".zz") {
+				return nil
+			}
+			var line Str
+			switch n {
+			case "Printf":
+				line = it.sprintf(fr, args[1].(Str), varargs(args[2]))
+				if len(line.b) == 0 || line.b[len(line.b)-1] != it.tt.bytes['\n'] {
+					line = Str{append(append([]*Term{}, line.b...), it.tt.bytes['\n'])}
+				}
+			case "Println":
+				line = it.sprint(fr, varargs(args[1]), true)
+			default:
+				line = it.sprint(fr, varargs(args[1]), false)
+				line = Str{append(append([]*Term{}, line.b...), it.tt.bytes['\n'])}
+			}
+			it.invokeMethod(fr, oi, "Write", strToBytes(line))
+			return nil
+		})
 	}
 	reg("(*log.Logger).Output", func(fr *frame, args []Value) Value { return Iface{} })
 	reg("log.Output", func(fr *frame, args []Value) Value { return Iface{} })
-	reg("(*log.Logger).SetOutput", func(fr *frame, args []Value) Value { return nil })
-	reg("log.SetOutput", func(fr *frame, args []Value) Value { return nil })
 	reg("log.SetFlags", func(fr *frame, args []Value) Value { return nil })
 	for _, n := range []string{"Fatal", "Fatalf", "Fatalln"} {
 		reg("log."+n, func(fr *frame, args []Value) Value { panic(pathEnd{reason: "exit", detail: "log.Fatal"}) })
@@ -371,7 +411,18 @@ func init() {
 func (it *Interp) getenv(k Str) (Str, bool) {
 	ks, ok := k.concrete()
 	if !ok {
-		panic(engineErr("getenv with symbolic key"))
+		// symbolic name: it can only name a variable of the harness-supplied environment table
+		for name, v := range it.envSym {
+			if it.branch(it.equals(k, it.mkStr(name))) {
+				return v, true
+			}
+		}
+		for name, v := range it.envTable {
+			if it.branch(it.equals(k, it.mkStr(name))) {
+				return it.mkStr(v), true
+			}
+		}
+		return Str{}, false
 	}
 	if v, ok := it.envSym[ks]; ok {
 		return v, true
